@@ -1,8 +1,10 @@
 def compress_settings(settings):
     #           scenario_manager: scenario: value_type:  value: [float]
     scenario_managers = dict[str, dict[str, dict[str, dict[str, [float]]]]]()
-        
-    for step in settings.keys():
+    # the step times are kept: a value is stored together with the position of its step in this list
+    steps = list(settings.keys())
+
+    for index, step in enumerate(steps):
         # loop over all scenario managers in the step
         for scenario_manager_name in settings[step]:
             scenario_manager = settings[step][scenario_manager_name]
@@ -27,17 +29,19 @@ def compress_settings(settings):
                     for constant in scenario_manager[scenario][value_type]:
                         constant_value = scenario_manager[scenario][value_type][constant]
                         if not constant in current_scenario_transformed[value_type]:
-                            current_scenario_transformed[value_type][constant] = [constant_value]
+                            current_scenario_transformed[value_type][constant] = [[index, constant_value]]
                         else:
-                            current_scenario_transformed[value_type][constant].append(constant_value)
-    return scenario_managers
+                            current_scenario_transformed[value_type][constant].append([index, constant_value])
+    return {"steps": steps, "values": scenario_managers}
 
 
 def compress_results(results):
     #           scenario_manager: scenario: value_name: [float]
     scenario_managers = dict[str, dict[str, dict[str, [float]]]]()
-    
-    for step in results.keys():
+    # the step times are kept; every step reports the same equations, so the n-th value belongs to the n-th step
+    steps = list(results.keys())
+
+    for step in steps:
         # loop over all scenario managers in the step
         for scenario_manager_name in results[step]:
             scenario_manager = results[step][scenario_manager_name]
@@ -60,24 +64,25 @@ def compress_results(results):
                         current_scenario_transformed[constant] = [constant_value]
                     else:
                         current_scenario_transformed[constant].append(constant_value)
-    return scenario_managers
+    return {"steps": steps, "values": scenario_managers}
 
 def decompress_settings(settings):
     #               step: scenarioManager:  scenario:    constants:   constant: value
     result = dict[str, dict[str, dict[str, dict[str, dict[str, float]]]]]()
-    
+    steps = settings["steps"]
+    settings = settings["values"]
+
+    # every step that was taken has an entry, also those without settings
+    for step in steps:
+        result[step] = dict()
+
     for scenario_manager_name in settings.keys():
         for scenario_name in settings[scenario_manager_name]:
             for value_type in settings[scenario_manager_name][scenario_name]:
                 for constant_name in settings[scenario_manager_name][scenario_name][value_type]:
                     constant = settings[scenario_manager_name][scenario_name][value_type][constant_name]
-                    for i in range(1, len(constant) + 1):
-                        # converts int to float in x.0 format (e.g. 3 -> 3.0)
-                        step_str = f"{i:.1f}"
-                        
-                        if not step_str in result:
-                            result[step_str] = dict()
-                        step_transformed = result[step_str]
+                    for index, constant_value in constant:
+                        step_transformed = result[steps[index]]
                         
                         if not scenario_manager_name in step_transformed:
                             step_transformed[scenario_manager_name] = dict()
@@ -91,25 +96,26 @@ def decompress_settings(settings):
                             scenario_transformed[value_type] = dict()
                         value_type_transformed = scenario_transformed[value_type]
                     
-                        value_type_transformed[constant_name] = constant[i - 1]
+                        value_type_transformed[constant_name] = constant_value
                     
     return result
 
 def decompress_results(results):
     #               step: scenarioManager:  scenario:    constants:   constant: value
     result = dict[str, dict[str, dict[str, dict[str, dict[str, float]]]]]()
-    
+    steps = results["steps"]
+    results = results["values"]
+
+    for step in steps:
+        result[step] = dict()
+
     for scenario_manager_name in results.keys():
         for scenario_name in results[scenario_manager_name]:
             for constant_name in results[scenario_manager_name][scenario_name]:
                 constant = results[scenario_manager_name][scenario_name][constant_name]
                 for i in range(1, len(constant) + 1):
-                    # converts int to float in x.0 format (e.g. 3 -> 3.0)
-                    step_str = f"{i:.1f}"
-                    
-                    if not step_str in result:
-                        result[step_str] = dict()
-                    step_transformed = result[step_str]
+                    step = steps[i - 1]
+                    step_transformed = result[step]
                     
                     if not scenario_manager_name in step_transformed:
                         step_transformed[scenario_manager_name] = dict()
@@ -119,6 +125,6 @@ def decompress_results(results):
                         scenario_manager_transformed[scenario_name] = dict()
                     scenario_transformed = scenario_manager_transformed[scenario_name]
                 
-                    scenario_transformed[constant_name] = {step_str: constant[i - 1]}
+                    scenario_transformed[constant_name] = {step: constant[i - 1]}
                     
     return result
